@@ -32,12 +32,12 @@ using VS = rlbox_vsbx_sandbox<MCfg>;
 using MP = typename MCfg::P;
 template<typename T> using MG = ref::guest_t<MCfg, T>;
 
-static uint64_t n_trees = 0, n_trace_ok = 0, n_abort_runs = 0, n_timing_ok = 0;
+static uint64_t n_trees = 0, n_trace_ok = 0, n_abort_runs = 0, n_timing_ok = 0, n_caught = 0;
 static void report(const char* backend, const char* what, const char* cls, const std::string& d) { mon::violation(mon::fmt("C19/%s/%s/%s", backend, what, cls), d); }
 
 // ------------------------------------------------------------------ the tree
 struct InvNode { int sbx; std::vector<int> cbs; };  // tokens of the callbacks the guest makes
-struct CbNode { std::vector<int> invs; int chg = -1; }; // invocations made from the callback body; chg >= 0: the body first switches its sandbox's transition state
+struct CbNode { std::vector<int> invs; int chg = -1; bool catches = false; }; // invocations made from the callback body; chg >= 0: the body first switches its sandbox's transition state
 static std::vector<InvNode> g_inv;
 static std::vector<CbNode> g_cb;
 enum Phase { P_NONE, P_ARG, P_BODY, P_RESULT };
@@ -50,6 +50,7 @@ static int gen_cb(mon::Rng& rng, int depth, int& budget)
   int tok = g_cb.size();
   g_cb.push_back({});
   if (rng.below(4) == 0) g_cb[tok].chg = 1 + static_cast<int>(rng.below(62));
+  g_cb[tok].catches = rng.below(3) == 0; // this callback body catches an abort of the invocations it makes and carries on
   if (depth > 0) {
     int n = rng.below(10) < 7 ? 1 + rng.below(2) : 0;
     for (int i = 0; i < n && budget > 0; i++) { int id = gen_inv(rng, depth - 1, budget); g_cb[tok].invs.push_back(id); }
@@ -103,7 +104,10 @@ static tainted<long, B> the_cb(rlbox_sandbox<B>&, tainted<int, B> tok)
   int t = tok.UNSAFE_unverified();
   if (g_abort_phase == P_BODY && g_abort_at == t) rlbox::detail::dynamic_check(false, "injected abort in callback body");
   if (g_cb[t].chg >= 0) Ctx<B>::box[Me]->set_transition_state(&g_state_pool[Me][g_cb[t].chg]);
-  for (int id : g_cb[t].invs) run_inv<B>(id);
+  for (int id : g_cb[t].invs) {
+    if (g_cb[t].catches) { try { run_inv<B>(id); } catch (const std::exception&) { n_caught++; } }
+    else run_inv<B>(id);
+  }
   tainted<long, B> r = 1;
   if (g_abort_phase == P_RESULT && g_abort_at == t) r = static_cast<long>(1) << 40; // not representable in a 32-bit guest long
   return r;
@@ -126,7 +130,8 @@ static void sim_inv(int id, std::vector<c19::Ev>& out, void* key[2])
   int s = g_inv[id].sbx;
   out.push_back({ true, 0, "run_node", Ctx<B>::sym[s], sim_state(s) });
   try {
-    if (g_abort_phase == P_ARG && g_abort_at == id) throw Abort{};
+    // conversion aborts (unrepresentable argument / result) exist only where the guest ABI is narrower than the host's
+    if (g_abort_phase == P_ARG && g_abort_at == id && be::BT<B>::foreign) throw Abort{};
     for (int tok : g_inv[id].cbs) sim_cb<B>(tok, s, out, key);
   } catch (Abort&) {
     out.push_back({ false, 0, "run_node", Ctx<B>::sym[s], sim_state(s) });
@@ -141,8 +146,11 @@ static void sim_cb(int tok, int s, std::vector<c19::Ev>& out, void* key[2])
   try {
     if (g_abort_phase == P_BODY && g_abort_at == tok) throw Abort{};
     if (g_cb[tok].chg >= 0) g_sim_state[s] = g_cb[tok].chg;
-    for (int id : g_cb[tok].invs) sim_inv<B>(id, out, key);
-    if (g_abort_phase == P_RESULT && g_abort_at == tok) throw Abort{};
+    for (int id : g_cb[tok].invs) {
+      if (g_cb[tok].catches) { try { sim_inv<B>(id, out, key); } catch (Abort&) {} }
+      else sim_inv<B>(id, out, key);
+    }
+    if (g_abort_phase == P_RESULT && g_abort_at == tok && be::BT<B>::foreign) throw Abort{};
   } catch (Abort&) {
     out.push_back({ true, 1, "", key[s], sim_state(s) });
     throw;
@@ -304,6 +312,7 @@ int main(int argc, char** argv)
   mon::hit("trace-equals-call-tree", n_trace_ok);
   mon::hit("abort-injected-runs", n_abort_runs);
   mon::hit("timing-records-exact", n_timing_ok);
+  mon::hit("aborts-caught-inside-a-callback-and-execution-continued", n_caught);
   mon::extra_num("call_trees", n_trees);
   std::string cfg;
 #ifdef HOOK_IN
